@@ -2,7 +2,7 @@
 removal-cause classification shared with C03/C07."""
 from .core import RuleResult, CheckFailure
 from .roles import CHAN_RECV
-from .roles import named
+from .roles import named, ts_name_kind, sync_ts_fields
 from .kernel import norm
 from .roles import (get_roles, HASHMAP_MUT, HASHMAP_REMOVE, HASHMAP_INSERT, DASHMAP_MUT, DASHMAP_REMOVE, CHAN_SEND, SKETCH)
 from .symex import fmt, subterms, PathLimit
@@ -50,7 +50,7 @@ def expiry_atom(c, v):
 
 def _is_ts(t):
     return any(isinstance(x, tuple) and x and x[0] == 'call' and str(x[1]).split('::')[-1] in ('last_accessed', 'last_modified')
-               for x in subterms(t)) or any(isinstance(x, tuple) and x and x[0] == 'fld' and x[2] in ('timestamp', 'last_accessed', 'last_modified')
+               for x in subterms(t)) or any(isinstance(x, tuple) and x and x[0] == 'fld' and (x[2] == 'timestamp' or ts_name_kind(x[2]))
                                            for x in subterms(t))
 
 
@@ -105,7 +105,8 @@ def rule_pure_observers(ctx, only_timestamps=False):
             if e[0] == 'write' and e[1] == SKETCH:
                 bad.append(('sketch-write', 'FrequencySketch.%s' % e[2], e))
         # F2 timestamps / F4 flags
-        for (adt, f) in (SYNC_TS + SYNC_FLAGS if kind == 'sync' else UNSYNC_TS + UNSYNC_FLAGS):
+        sync_ts = sync_ts_fields(ctx) or SYNC_TS
+        for (adt, f) in (sync_ts + SYNC_FLAGS if kind == 'sync' else UNSYNC_TS + UNSYNC_FLAGS):
             if ('write', adt, f) in tr:
                 bad.append(('state-write', '%s.%s' % (adt.split('::')[-1], f), ('write', adt, f)))
         # F3 recency
@@ -145,7 +146,7 @@ def rule_pure_observers(ctx, only_timestamps=False):
                                       'a later lookup/iteration can observe the difference' % (o.split('::')[-1], x),
                                       where=ctx.where(x, line), path=path, expected='removals reachable from an observer are dominated by the expiry predicate')
         if only_timestamps:
-            ts_names = {'%s.%s' % (a.split('::')[-1], f) for a, f in SYNC_TS + UNSYNC_TS}
+            ts_names = {'%s.%s' % (a.split('::')[-1], f) for a, f in (sync_ts_fields(ctx) or SYNC_TS) + UNSYNC_TS}
             bad = [x for x in bad if (x[0] == 'state-write' and x[1] in ts_names) or x[0] in ('queue-send', 'op-construct', 'maintenance')]
         r.instance(observer=o, kind=kind, reachable_functions=len(reach), forbidden_effects=[(k, d) for k, d, _ in bad])
         seen = set()
@@ -330,24 +331,34 @@ def rule_sketch_structure(ctx):
     prog = ctx.prog
     SK = 'common::frequency_sketch::FrequencySketch'
     reset = ctx.body(SK + '::reset')
+    # the aging step with the helpers of its module inlined (the table pass may live in a helper)
+    def _mod(n_, bb, d):
+        return True if (n_.startswith(('common::frequency_sketch::', '<common::frequency_sketch::')) and d < 3 and bb.kind != 'closure') else None
+    try:
+        reset_paths = ctx.symex(inline_depth=3, loop_visits=2, inline_pred=_mod).run(reset.nid)
+    except PathLimit:
+        raise CheckFailure('SKETCH-structure: path limit in %s' % reset.nid)
     # --- whole-table scan
     n = 0
-    for bi, t in reset.calls():
-        tg, ext, _ = prog.call_targets(reset, t)
-        if ext and ext.split('::')[-1] in ('iter_mut', 'into_iter', 'iter'):
-            leaves = ctx.orig.of_operand(reset, t['args'][0])
-            sliced = sorted(str(l[1]) for l in leaves if l[0] == 'call' and str(l[1]).split('::')[-1] in ('index', 'index_mut', 'get', 'get_mut', 'split_at', 'split_at_mut', 'take', 'skip', 'step_by', 'chunks', 'split_first', 'split_last', 'get_unchecked_mut'))
-            from_table = any(l[0] == 'field' and l[1] == SK and l[2] == 'table' for l in leaves)
-            n += 1
-            r.instance(function=reset.nid, iterates=ext, over_table_field=from_table, sub_slice_ops=sliced)
-            if sliced or not from_table:
-                r.violate(reset.nid, 'aging-partial-scan', ','.join(sliced) or 'not-table', 'the aging step iterates %s: not every estimate is halved' % (sliced or 'something else than self.table'),
-                          where=ctx.where(reset.nid, t.get('line')), expected='for entry in self.table.iter_mut()')
+    seen_iter = set()
+    SUB = ('index', 'index_mut', 'get', 'get_mut', 'split_at', 'split_at_mut', 'take', 'skip', 'step_by', 'chunks', 'split_first', 'split_last', 'get_unchecked_mut')
+    for p in reset_paths:
+        for e in p.events:
+            if e[0] == 'call' and str(e[1]).split('::')[-1] in ('iter_mut', 'into_iter', 'iter') and e[2] and (e[1], e[3]) not in seen_iter:
+                seen_iter.add((e[1], e[3]))
+                A = e[2][0]
+                from_table = any(isinstance(x, tuple) and x and x[0] == 'fld' and x[1] == ('param', 1) and x[2] == 'table' for x in subterms(A))
+                sliced = sorted({str(x[1]).split('::')[-1] for x in subterms(A) if isinstance(x, tuple) and x and x[0] == 'call' and str(x[1]).split('::')[-1] in SUB} |
+                                {'[range]' for x in subterms(A) if isinstance(x, tuple) and x and (x[0] == 'index' or (x[0] == 'aggr' and 'ops::Range' in str(x[1])))})
+                n += 1
+                r.instance(function=reset.nid, iterates=e[1], over_table_field=from_table, sub_slice_ops=sliced)
+                if sliced or not from_table:
+                    r.violate(reset.nid, 'aging-partial-scan', ','.join(sliced) or 'not-table', 'the aging step iterates %s: not every estimate is halved' % (sliced or 'something else than self.table'),
+                              where=ctx.where(reset.nid, e[3]), expected='for entry in self.table.iter_mut()')
     if n == 0:
         r.violate(reset.nid, 'aging-no-scan', 'iter_mut', 'the aging step does not iterate the table', where=ctx.where(reset.nid))
-    sx = ctx.symex(inline_depth=1, loop_visits=2)
     halved = False
-    for p in sx.run(reset.nid):
+    for p in reset_paths:
         for e in p.events:
             if e[0] == 'write' and isinstance(e[2], tuple) and e[2][0] == 'bin' and e[2][1] == 'BitAnd':
                 a, c = e[2][2], e[2][3]
@@ -357,7 +368,7 @@ def rule_sketch_structure(ctx):
                     halved = True
     # the sample counter follows the counters: size' = (size - odd/4) / 2  (with size >= sum/4 >= odd/4 invariant)
     size_ok = None
-    for p in ctx.symex(inline_depth=1, loop_visits=2).run(reset.nid):
+    for p in reset_paths:
         if p.diverged:
             continue
         for e in p.events:
@@ -371,7 +382,7 @@ def rule_sketch_structure(ctx):
                               'which is what rules out the underflow' % fmt(v)[:120], where=ctx.where(reset.nid, e[3]), expected='self.size = (self.size - (count >> 2)) >> 1')
     r.instance(function=reset.nid, size_update='(size - (count >> 2)) >> 1', found=bool(size_ok))
     # every visited slot is rewritten (no `continue` that skips the halving for some slots)
-    for p in ctx.symex(inline_depth=1, loop_visits=2).run(reset.nid):
+    for p in reset_paths:
         if p.diverged:
             continue
         visited = sum(1 for c, v in p.conds if isinstance(c, tuple) and c[0] == 'discr' and v == 1 and any(
@@ -425,6 +436,19 @@ def rule_sketch_structure(ctx):
         r.instance(function=b.nid, depth_range_0_4=ok)
         if not ok:
             r.violate(b.nid, 'sketch-depth', '0..4', '%s does not loop over the 4 counters of a key' % b.nid, where=ctx.where(b.nid))
+        # all four counters are visited on every call: the depth loop is left only when its range is exhausted (no break / early return)
+        for bb in [b] + [prog.bodies[c] for c in prog.closures_of.get(b.nid, [])]:
+            succ, _pred, _seen = bb.cfg()
+            for h, body, back in bb.loops():
+                srcs = sorted({x for x in body for s_ in succ.get(x, []) if s_ not in body and not bb.blocks[s_].get('cleanup')
+                               and bb.blocks[s_]['term']['t'] not in ('unreachable',)})
+                # exits through a diverging call (panic) are not normal exits
+                srcs = [x for x in srcs if not (bb.blocks[x]['term']['t'] == 'call' and bb.blocks[x]['term'].get('target') is None)]
+                r.instance(function=bb.nid, depth_loop_exit_blocks=len(srcs))
+                if len(srcs) > 1:
+                    r.violate(bb.nid, 'sketch-depth-early-exit', 'loop', 'the counter loop of %s can be left before all 4 counters of the key were visited (%d exit points): counters of a '
+                              'key get out of step, estimates fall below the number of recorded lookups' % (bb.nid, len(srcs)), where=ctx.where(bb.nid),
+                              expected='for i in 0..4 { .. } without break / return')
     r.require_floor(6, 'sketch structure obligations')
     return r
 
